@@ -383,6 +383,7 @@ def make_case(rng, sw, nrows, cid):
             neg_zero = c.account_type == "asset"
         a = D(cents < 0 or neg_zero, abs(cents) // (10 ** (2 - scale)), scale)
         r["a"] = a
+        r["zero_other"] = rng.choice(["0.00", "0", "0.0"]) if (c.value_mode == "credit_debit" and not a.neg and cents != 0 and rng.random() < 0.25) else None
         bal[com] += cents
         r["bal"] = D.cents(bal[com])
         r["bal_cents"] = bal[com]
@@ -483,6 +484,10 @@ def render(rng, c):
                 v = fmt_amount(rng, D(False, r["a"].mant, r["a"].scale), r["commodity"]) if not r["a"].neg else ""
             elif k == "debit":
                 v = fmt_amount(rng, D(False, r["a"].mant, r["a"].scale), r["commodity"]) if r["a"].neg else ""
+                if not r["a"].neg and r.get("zero_other"):
+                    # a statement that fills both cells: a literal zero in the debit cell of a credit row changes nothing
+                    # (the mirror image - a zero in the CREDIT cell of a debit row - is known finding F41)
+                    v = r["zero_other"]
             elif k == "balance":
                 v = fmt_amount(rng, r["bal"], r["commodity"])
             elif k == "commodity":
@@ -1076,6 +1081,25 @@ def run(chk):
             p = parse_proc_impl(f.get("proc", "-"))
             if p[0] == "err" and p[2] == "UnbalancedPostings":
                 chk.known_finding(kf["id"], kf_what[kf["id"]] % f.get("proc"))
+            chk.streams["known-finding-replays"] = chk.streams.get("known-finding-replays", 0) + 1
+        if kf["id"] == "F41":
+            w = kf["witness"]
+            out = run_sharded(HX, ["c16"], ["kf41 cfg=%s src=%s fund=%s" % (enc(w["config_yaml"]), enc(w["csv"]), enc(w["fund"]))], 1)
+            _, f = split_fields(out[0])
+            p = parse_proc_impl(f.get("proc", "-"))
+            try:
+                ist, itx = parse_import(f.get("import", "(missing)"))
+            except Exception:      # noqa
+                ist, itx = "unparsed", []
+            lost = ist == "ok" and len(itx) == 2 and any(q["account"] == "Assets:Bank" and q["amount"]["value"] == 0 for q in itx[1]["posts"])
+            if lost and p[0] == "err":
+                chk.known_finding("F41", "CSV import with credit / debit columns books a debit row as 0.00 when its credit cell holds `0.00` "
+                                         "(the credit cell wins whenever it is not empty); okane's own book-keeping rejects the ledger imported "
+                                         "from the consistent statement (%s)" % f.get("proc", "")[:120])
+            else:
+                chk.violation("known finding F41 no longer reproduces as recorded (update known_findings.json): import=%s proc=%s" %
+                              (f.get("import", "")[:200], f.get("proc", "")[:120]), {"witness": w, "observed": out[0][:2000]},
+                              no_failing_input=True, tag="known")
             chk.streams["known-finding-replays"] = chk.streams.get("known-finding-replays", 0) + 1
     # ---------------- main stream
     cases = build_cases(chk)
